@@ -21,6 +21,35 @@ use std::time::Duration;
 
 pub struct C04;
 
+thread_local! {
+    /// set by C05 when it re-uses the fault cases of this module for its "no spurious
+    /// circular-dependency failure" clause
+    pub static CYCLE_MISREPORT_IS_VIOLATION: std::cell::Cell<bool> = const { std::cell::Cell::new(false) };
+}
+
+/// C05's use of the fault cases: acyclic DAG + one faulty file; only the kind of failure matters
+pub fn gen_directive_case(c: &mut Choices) -> Case {
+    loop {
+        let k = gen_case(c);
+        if let Case::Directive { mode, .. } = &k {
+            if *mode != ModeS::Clean {
+                return k;
+            }
+        }
+        if c.exhausted() {
+            // the simplest choices give a Directive/Build case; this is only a safety net
+            return gen_case(&mut Choices::new(&[]));
+        }
+    }
+}
+
+pub fn check_cycle_misreport(case: &Case, st: &mut Stats) -> Check {
+    CYCLE_MISREPORT_IS_VIOLATION.with(|c| c.set(true));
+    let r = check_directive(case, st);
+    CYCLE_MISREPORT_IS_VIOLATION.with(|c| c.set(false));
+    r
+}
+
 #[derive(Debug, Clone, Copy, PartialEq, Eq, Hash, Serialize, Deserialize)]
 pub enum Fault {
     FailingCommand,
@@ -281,6 +310,23 @@ fn check_directive(case: &Case, st: &mut Stats) -> Check {
         ModeS::Clean => false, // clean ignores directive errors (only those are generated for clean)
         _ => required,
     };
+    if !out.ok && CYCLE_MISREPORT_IS_VIOLATION.with(|c| c.get()) {
+        // C05: "a project without cycles never gets a circular-dependency failure" - also when
+        // the run fails for another reason (the graph is acyclic by construction)
+        let e = out.err.clone().unwrap_or_default();
+        if e.contains("Circular dependencies") {
+            return viol(
+                "C05 acyclic-failure-reported-as-cycle",
+                format!(
+                    "{} has the fault {fault:?} ({mode:?}); the project has no dependency cycle, but the run failed with a circular-dependency report instead of the real error: {}\n  schedule {:?}",
+                    g.src_path(*file),
+                    super::common::short_err(&out.err),
+                    out.report.schedule
+                ),
+            );
+        }
+        return Ok(());
+    }
     if expect_err && out.ok {
         return viol(
             &format!("C04 false-success {fault:?} {mode:?}"),
